@@ -397,6 +397,54 @@ pub fn run(tier: Tier) -> i32 {
         }
     }
 
+    // ------------------------------------------------------------------ scope 3a': the same with trained matched-literal probabilities
+    {
+        let nmax = tier.pick(6usize, 9usize);
+        let name = format!("wrap/raw-trained/dict=2..{}", nmax);
+        if ctx.may_start(&name) {
+            let t0 = Instant::now();
+            let mut items: Vec<(usize, usize, usize, usize)> = Vec::new();
+            for n in 2..=nmax {
+                for o in 0..n {
+                    for d in 1..=n {
+                        for l in 2..=(n + 2) {
+                            items.push((n, o, d, l));
+                        }
+                    }
+                }
+            }
+            par_for(items.len() as u64, |i| {
+                let (n, o, d, l) = items[i as usize];
+                // training: literal, match(dist 1), matched literal - 30 times with 3 different byte pairs
+                let mut prog: Vec<Sym> = Vec::new();
+                for k in 0..30u32 {
+                    let a = [0x91u8, 0x5C, 0xE3][(k % 3) as usize];
+                    prog.push(Sym::L(a));
+                    prog.push(Sym::M(1, 2));
+                    prog.push(Sym::L(a ^ [0x0Fu8, 0xF0, 0x81][(k % 3) as usize]));
+                }
+                for k in 0..o {
+                    prog.push(Sym::L((0xA1 + k * 0x13) as u8));
+                }
+                prog.push(Sym::M(d as u32, l as u32));
+                prog.push(Sym::L(0xC7)); // matched literal whose reference byte position sweeps over the whole window
+                prog.push(Sym::S);
+                prog.push(Sym::L(0x3A));
+                for (lc, lp, pb) in [(0u32, 0u32, 0u32), (3, 0, 2)] {
+                    for var in [Variant::RawKnown { dict: n as u32 }, Variant::RawMarker { dict: n as u32 }] {
+                        if let Some((b, _)) = build(lc, lp, pb, &prog, var, n as u64) {
+                            ctx.eval(1);
+                            ctx.nontriv(1);
+                            ctx.states.fetch_add(1, Ordering::Relaxed);
+                            ctx.transitions.fetch_add(1, Ordering::Relaxed);
+                            check_exact(&ctx, &b, &format!("trained program ending [.. {}] on raw decoder dict={} lc={} lp={} pb={} {:?}", prog_str(&prog[prog.len() - 4..]), n, lc, lp, pb, var));
+                        }
+                    }
+                }
+            });
+            ctx.scope_done(&name, items.len() as u64, t0, "matched literals at every window position after 30 rounds of matched-literal training");
+        }
+    }
     // ------------------------------------------------------------------ scope 3b: wrap at 4096 through the public API (header dict 0, 1, 4095, 4096)
     {
         let name = "wrap/public/dict=4096";
